@@ -24,6 +24,21 @@ def _corpus_records(qn, limit=4):
     return out[:limit]
 
 
+BUILD_FAILURES = []      # (what, exception type) - records this harness could not build on the tree under test
+
+
+def _recs(label, thunks):
+    """Builds each record with the library's composer; a record that cannot be built on the tree under test is left
+    out (and remembered) instead of stopping every check that uses the layers."""
+    out = []
+    for k, t in enumerate(thunks):
+        try:
+            out.append(bytes(t()))
+        except Exception as e:  # noqa
+            BUILD_FAILURES.append(('%s[%d]' % (label, k), type(e).__name__))
+    return out
+
+
 def layers():
     """-> list of (layer name, class, [record bytes])"""
     from cryptodatahub.tls.version import TlsVersion
@@ -40,62 +55,71 @@ def layers():
     out = []
     v12 = TlsProtocolVersion(TlsVersion.TLS1_2)
     v10 = TlsProtocolVersion(TlsVersion.TLS1)
-    tls = [
-        TlsRecord(b'', v12, sp.TlsContentType.HANDSHAKE).compose(),
-        TlsRecord(b'\x01', v10, sp.TlsContentType.CHANGE_CIPHER_SPEC).compose(),
-        TlsRecord(b'\x02\x28', v12, sp.TlsContentType.ALERT).compose(),
-        TlsRecord(b'a' * 256, v12, sp.TlsContentType.APPLICATION_DATA).compose(),
-        TlsRecord(bytes(sp.TlsHandshakeServerHelloDone().compose()), v12, sp.TlsContentType.HANDSHAKE).compose(),
-    ]
-    out.append(('tls_record', TlsRecord, [bytes(r) for r in tls]))
+    out.append(('tls_record', TlsRecord, _recs('tls_record', [
+        lambda: TlsRecord(b'', v12, sp.TlsContentType.HANDSHAKE).compose(),
+        lambda: TlsRecord(b'\x01', v10, sp.TlsContentType.CHANGE_CIPHER_SPEC).compose(),
+        lambda: TlsRecord(b'\x02\x28', v12, sp.TlsContentType.ALERT).compose(),
+        lambda: TlsRecord(b'a' * 256, v12, sp.TlsContentType.APPLICATION_DATA).compose(),
+        lambda: TlsRecord(bytes(sp.TlsHandshakeServerHelloDone().compose()), v12, sp.TlsContentType.HANDSHAKE).compose(),
+    ])))
 
     kinds = list(SslCipherKind)
-    err = SslRecord(sp.SslErrorMessage(sp.SslErrorType.NO_CIPHER_ERROR)).compose()
-    ch = SslRecord(sp.SslHandshakeClientHello(kinds[:2], session_id=b'', challenge=b'\x00' * 16)).compose()
-    sh = SslRecord(sp.SslHandshakeServerHello(b'c' * 256, kinds[:1], b'\x01' * 16)).compose()
-    body = bytes(err[2:])
+    ssl2 = _recs('ssl2_record', [
+        lambda: SslRecord(sp.SslErrorMessage(sp.SslErrorType.NO_CIPHER_ERROR)).compose(),
+        lambda: SslRecord(sp.SslHandshakeClientHello(kinds[:2], session_id=b'', challenge=b'\x00' * 16)).compose(),
+        lambda: SslRecord(sp.SslHandshakeServerHello(b'c' * 256, kinds[:1], b'\x01' * 16)).compose(),
+    ])
+    # the 3-byte-header forms (never emitted by the composer) are laid out by hand: record type 0 = error, NO_CIPHER
+    body = b'\x00\x00\x01'
     pad = 5
     three = bytes(((len(body) + pad) >> 8 & 0x3f, (len(body) + pad) & 0xff, pad)) + body + b'\x00' * pad
     three0 = bytes((len(body) >> 8 & 0x3f, len(body) & 0xff, 0)) + body
-    out.append(('ssl2_record', SslRecord, [bytes(err), bytes(ch), bytes(sh), three, three0]))
+    out.append(('ssl2_record', SslRecord, ssl2 + [three, three0]))
 
     kex = None
     for b in _corpus_records('cryptoparser.ssh.subprotocol.SshKeyExchangeInit', 1):
-        kex = ss.SshKeyExchangeInit.parse_exact_size(b)
-    init_msgs = [ss.SshUnimplementedMessage(1),
-                 ss.SshDisconnectMessage(ss.SshReasonCode.BY_APPLICATION, 'bye', 'en'),
-                 ss.SshDisconnectMessage(ss.SshReasonCode.PROTOCOL_ERROR, 'x' * 300, '')]
+        try:
+            kex = ss.SshKeyExchangeInit.parse_exact_size(b)
+        except Exception as e:  # noqa
+            BUILD_FAILURES.append(('kexinit seed', type(e).__name__))
+    init_msgs = [lambda: ss.SshUnimplementedMessage(1),
+                 lambda: ss.SshDisconnectMessage(ss.SshReasonCode.BY_APPLICATION, 'bye', 'en'),
+                 lambda: ss.SshDisconnectMessage(ss.SshReasonCode.PROTOCOL_ERROR, 'x' * 300, '')]
     if kex is not None:
-        init_msgs.append(kex)
-    out.append(('ssh_init', sr.SshRecordInit, [bytes(sr.SshRecordInit(m).compose()) for m in init_msgs]))
-    dh_msgs = [ss.SshNewKeys(), ss.SshDHKeyExchangeInit(b'\x01' * 7), ss.SshDHKeyExchangeInit(b'\x02' * 260),
-               ss.SshUnimplementedMessage(2)]
-    out.append(('ssh_kexdh', sr.SshRecordKexDH, [bytes(sr.SshRecordKexDH(m).compose()) for m in dh_msgs]))
-    gex_msgs = [ss.SshNewKeys(), ss.SshDHGroupExchangeRequest(1024, 2048, 8192),
-                ss.SshDHGroupExchangeGroup(b'\x00\xff' * 130, b'\x02'), ss.SshDHGroupExchangeInit(b'\x03' * 9)]
+        init_msgs.append(lambda: kex)
+    out.append(('ssh_init', sr.SshRecordInit,
+                _recs('ssh_init', [lambda m=m: sr.SshRecordInit(m()).compose() for m in init_msgs])))
+    dh_msgs = [lambda: ss.SshNewKeys(), lambda: ss.SshDHKeyExchangeInit(b'\x01' * 7),
+               lambda: ss.SshDHKeyExchangeInit(b'\x02' * 260), lambda: ss.SshUnimplementedMessage(2)]
+    out.append(('ssh_kexdh', sr.SshRecordKexDH,
+                _recs('ssh_kexdh', [lambda m=m: sr.SshRecordKexDH(m()).compose() for m in dh_msgs])))
+    gex_msgs = [lambda: ss.SshNewKeys(), lambda: ss.SshDHGroupExchangeRequest(1024, 2048, 8192),
+                lambda: ss.SshDHGroupExchangeGroup(b'\x00\xff' * 130, b'\x02'),
+                lambda: ss.SshDHGroupExchangeInit(b'\x03' * 9)]
     out.append(('ssh_kexdhgroup', sr.SshRecordKexDHGroup,
-                [bytes(sr.SshRecordKexDHGroup(m).compose()) for m in gex_msgs]))
+                _recs('ssh_kexdhgroup', [lambda m=m: sr.SshRecordKexDHGroup(m()).compose() for m in gex_msgs])))
     banners = [b'SSH-2.0-x\r\n', b'SSH-2.0-OpenSSH_8.9 c\r\n', b'SSH-1.99-sw\n', b'SSH-2.0-dropbear_2019.78\r\n',
                b'SSH-2.0-a b c d\r\n']
     out.append(('ssh_banner', ss.SshProtocolMessage, [b for b in banners if _ok_full(ss.SshProtocolMessage, b)]))
 
-    my = [MySQLRecord(0, b'').compose(), MySQLRecord(1, b'\x0a').compose(), MySQLRecord(255, b'm' * 256).compose(),
-          MySQLRecord(2, b'\x00' * 5).compose()]
-    out.append(('mysql_record', MySQLRecord, [bytes(r) for r in my]))
-    tp = [TPKT(3, b'').compose(), TPKT(3, b'\x01').compose(), TPKT(3, b't' * 300).compose(),
-          TPKT(3, b'\x06\xe0\x00\x00\x00\x00\x00').compose()]
-    out.append(('tpkt', TPKT, [bytes(r) for r in tp]))
-    ov = [OpenVpnPacketWrapperTcp(b'').compose(), OpenVpnPacketWrapperTcp(b'\x38').compose(),
-          OpenVpnPacketWrapperTcp(b'o' * 257).compose(), OpenVpnPacketWrapperTcp(b'\x00\x01').compose()]
-    out.append(('openvpn_tcp', OpenVpnPacketWrapperTcp, [bytes(r) for r in ov]))
+    out.append(('mysql_record', MySQLRecord, _recs('mysql_record', [
+        lambda: MySQLRecord(0, b'').compose(), lambda: MySQLRecord(1, b'\x0a').compose(),
+        lambda: MySQLRecord(255, b'm' * 256).compose(), lambda: MySQLRecord(2, b'\x00' * 5).compose()])))
+    out.append(('tpkt', TPKT, _recs('tpkt', [
+        lambda: TPKT(3, b'').compose(), lambda: TPKT(3, b'\x01').compose(), lambda: TPKT(3, b't' * 300).compose(),
+        lambda: TPKT(3, b'\x06\xe0\x00\x00\x00\x00\x00').compose()])))
+    out.append(('openvpn_tcp', OpenVpnPacketWrapperTcp, _recs('openvpn_tcp', [
+        lambda: OpenVpnPacketWrapperTcp(b'').compose(), lambda: OpenVpnPacketWrapperTcp(b'\x38').compose(),
+        lambda: OpenVpnPacketWrapperTcp(b'o' * 257).compose(), lambda: OpenVpnPacketWrapperTcp(b'\x00\x01').compose()])))
     out.append(('ldap_request', ldap.LDAPExtendedRequestStartTLS,
-                [bytes(ldap.LDAPExtendedRequestStartTLS().compose())]))
+                _recs('ldap_request', [lambda: ldap.LDAPExtendedRequestStartTLS().compose()])))
     out.append(('ldap_response', ldap.LDAPExtendedResponseStartTLS,
-                [bytes(ldap.LDAPExtendedResponseStartTLS(c).compose())
-                 for c in (ldap.LDAPResultCode.SUCCESS, ldap.LDAPResultCode.PROTOCOL_ERROR,
-                           ldap.LDAPResultCode.OTHER)]))
-    out.append(('postgresql_sslrequest', postgresql.SslRequest, [bytes(postgresql.SslRequest().compose())]))
-    out.append(('postgresql_sync', postgresql.Sync, [bytes(postgresql.Sync().compose())]))
+                _recs('ldap_response', [lambda c=c: ldap.LDAPExtendedResponseStartTLS(c).compose()
+                                        for c in (ldap.LDAPResultCode.SUCCESS, ldap.LDAPResultCode.PROTOCOL_ERROR,
+                                                  ldap.LDAPResultCode.OTHER)])))
+    out.append(('postgresql_sslrequest', postgresql.SslRequest,
+                _recs('postgresql_sslrequest', [lambda: postgresql.SslRequest().compose()])))
+    out.append(('postgresql_sync', postgresql.Sync, _recs('postgresql_sync', [lambda: postgresql.Sync().compose()])))
 
     hs = handshake_messages()
     out.append(('tls_handshake_stream', sp.TlsHandshakeMessageVariant, [h for _, h in hs]))
@@ -128,4 +152,10 @@ def handshake_messages():
     creq = sp.TlsHandshakeCertificateRequest([sp.TlsClientCertificateType.RSA_SIGN], [])
     msgs = [('client_hello', ch), ('server_hello', sh), ('certificate', cert), ('server_hello_done', done),
             ('certificate_request', creq)]
-    return [(n, bytes(m.compose())) for n, m in msgs]
+    out = []
+    for n, m in msgs:
+        try:
+            out.append((n, bytes(m.compose())))
+        except Exception as e:  # noqa
+            BUILD_FAILURES.append(('handshake:' + n, type(e).__name__))
+    return out
